@@ -834,6 +834,67 @@ def vec_object(recv, fa):
     return x
 
 
+NEW_FNS = ("tinyvec::ArrayVec::<A>::new", "util::data_vec::DataVec::<T, N>::new", "util::Df88591String::<N>::new", "util::array_string::ArrayString::<N>::new")
+
+
+def _threaded_accumulator(f, fa, iv, b, L, init, cap):
+    """The vector is the accumulator of a fold: each iteration receives it by value (loop-header phi), pushes once and hands it on
+    (`acc = body(acc, x)?`, the expansion of try_fold).  The phi starts at `new()` and every other operand is the vector this iteration pushed
+    to; then the number of pushes is at most the loop's trip bound.  -> (ok, detail) or None if the shape is different."""
+    x = init
+    if x.op != "phi":
+        return None
+    h = x.args[2]
+    loops = f.loops()
+    if h not in loops or b not in loops[h]:
+        return None
+    body = loops[h]
+    inits = [v for pb, v in fa.phi_operands(x) if pb not in body]
+    backs = [v for pb, v in fa.phi_operands(x) if pb in body]
+    if not inits or not all(v.op == "call" and v.args[0] in NEW_FNS for v in inits):
+        return None
+
+    def from_pushed(v, depth=0, variant=None):
+        # Ok(vec) / Some(vec) payloads, tuple fields, moves: the vector local after this iteration's push (its value is havocked by the &mut).
+        # A projection `(r as Ok).0` selects the Ok-built operands of r; the others cannot be the value on a path that read that variant.
+        while depth < 10:
+            depth += 1
+            if v.op == "field" and v.args:
+                v = v.args[0]
+                continue
+            if v.op == "downcast" and v.args:
+                variant = v.args[1]
+                v = v.args[0]
+                continue
+            if v.op == "agg" and len(v.args) >= 4:
+                if variant is not None and v.args[1] != variant:
+                    return True          # an operand of another variant: not selected by the projection
+                if len(v.args[3]) != 1:
+                    return False
+                v = v.args[3][0]
+                variant = None
+                continue
+            if v.op == "phi":
+                return all(from_pushed(w, depth, variant) for pb_, w in fa.phi_operands(v))
+            if v.op == "call" and isinstance(v.args[0], str) and v.args[0].endswith("::from_residual") and variant == 0:
+                return True              # `?`'s early return builds an Err: never the Ok the projection reads
+            break
+        return v.op == "havoc" and v.args[1] == L
+    if not backs or not all(from_pushed(v) for v in backs):
+        return None
+    pushes = [xb for xb, t in f.calls() if callee_of(t) in ("tinyvec::ArrayVec::<A>::push", "util::data_vec::DataVec::<T, N>::push", "util::Df88591String::<N>::push",
+                                                             "util::Df88591String::<N>::push_char", "tinyvec::ArrayVec::<A>::extend_from_slice")
+              and vec_object(fa.call_args(xb)[0], fa).op == "loc" and vec_object(fa.call_args(xb)[0], fa).args[1] == L]
+    if pushes != [b]:
+        return None
+    tb = trip_bound(f, fa, iv, h, body)
+    if tb is None:
+        return False, "fold accumulator: no trip bound for the loop"
+    if cap >= 0 and tb <= cap:
+        return True, "fold accumulator created empty; one push per iteration, at most %d iterations <= capacity %d" % (tb, cap)
+    return False, "fold accumulator: up to %d pushes exceed capacity %d" % (tb, cap)
+
+
 def push_safe(f, fa, iv, b, recv):
     """P-push: (i) dominating len < CAP guard on the same vector inside the same iteration, or
     (ii) vector created empty before the loops, one push per iteration, product of trip bounds <= CAP."""
@@ -873,6 +934,9 @@ def push_safe(f, fa, iv, b, recv):
     if len(real) != 1:
         return False, "vector has several initialisations"
     init = fa.defterm(L, *real[0])
+    acc = _threaded_accumulator(f, fa, iv, b, L, init, cap)
+    if acc is not None:
+        return acc
     if not (init.op == "call" and init.args[0] in ("tinyvec::ArrayVec::<A>::new", "util::data_vec::DataVec::<T, N>::new",
                                                     "util::Df88591String::<N>::new", "util::array_string::ArrayString::<N>::new")):
         return False, "vector is not created empty in this function: %s" % show(init, names)
